@@ -137,7 +137,35 @@ def unit_schema(U):
     IM_.prove_plain_schema(U, "C14", ['directives', 'meta'])
 
 
-UNITS = [("schema", unit_schema), ("classify", unit_classify), ("own_directives", unit_own_directives)] + PL.c14_units()
+def unit_bounded_line_endings(U):
+    """Bounded: directives, comments and features are told apart line by line whatever ends the lines: LF, CRLF, a lone CR
+    (old Mac), mixed, no terminator on the last line - file and from_string input"""
+    import tempfile, os, shutil
+    import gffutils
+    fails, cases = [], 0
+    lines = ["##gff-version 3", "# a comment", "##species demo", "c\ts\tgene\t1\t9\t.\t+\t.\tID=g1", "#! not a directive", "##late 1", "c\ts\texon\t1\t5\t.\t+\t.\tID=e1;Parent=g1"]
+    want_dir, want_ids = ["gff-version 3", "species demo", "late 1"], ["e1", "g1"]
+    d = tempfile.mkdtemp()
+    try:
+        for name, eols in (("LF", ["\n"] * 7), ("CRLF", ["\r\n"] * 7), ("CR", ["\r"] * 7), ("mixed", ["\n", "\r", "\r\n", "\n", "\r", "\n", ""]), ("CR after comment", ["\n", "\r", "\n", "\n", "\r", "\n", "\n"])):
+            text = "".join(l + e for l, e in zip(lines, eols))
+            path = os.path.join(d, "in_%s.gff" % name.replace(" ", "_"))
+            with open(path, "w", newline="") as fh:
+                fh.write(text)
+            for form, kw in (("path", dict(data=path)), ("from_string", dict(data=text, from_string=True))):
+                cases += 1
+                try:
+                    db = gffutils.create_db(kw["data"], ":memory:", from_string=kw.get("from_string", False))
+                    got = [list(db.directives), sorted(f.id for f in db.all_features())]
+                except Exception as e:
+                    got = "raised %r" % (e,)
+                if got != [want_dir, want_ids]:
+                    fails.append({"case": {"line endings": name, "input": form}, "expected": [want_dir, want_ids], "observed": got})
+    finally:
+        shutil.rmtree(d, ignore_errors=True)
+    U.bounded_result("C14.bounded.line_endings", "directives and features of a file are the same whatever line terminators it uses", "5 terminator patterns x path / from_string", cases, fails)
+
+UNITS = [("bounded.line_endings", unit_bounded_line_endings), ("schema", unit_schema), ("classify", unit_classify), ("own_directives", unit_own_directives)] + PL.c14_units()
 try:
     from standins import C14 as _S
     UNITS = UNITS + list(_S.UNITS)
